@@ -45,6 +45,22 @@ fn do_check<K: framework::Check>(k: &K, opts: &Options) -> i32 {
     framework::run_check(k, opts)
 }
 
+fn do_locate<K: framework::Check>(k: &K, seed: u64, index: u64, tier: Tier, path: &std::path::Path) -> i32 {
+    framework::locate(k, seed, index, tier, path)
+}
+
+fn do_digests<K: framework::Check>(k: &K, seed: u64, n: u64, workers: usize) -> i32 {
+    let d = framework::digests(k, seed, n, workers, Tier::Quick);
+    let mut h = prng::Fnv::new();
+    for (i, s, x) in &d {
+        h.write_u64(*i);
+        h.write_u64(*s as u64);
+        h.write_u64(*x);
+    }
+    println!("digests property={} seed={} indexes={} evaluations={} combined={:016x}", k.id(), seed, n, d.len(), h.finish());
+    0
+}
+
 fn do_replay<K: framework::Check>(k: &K, rf: &ReplayFile, quiet: bool, strict: bool) -> i32 {
     framework::replay(k, rf, quiet, strict)
 }
@@ -81,7 +97,41 @@ fn main() {
                 i += 1;
             }
             let opts = Options::from_env(tier);
-            let code = dispatch!(id, do_check, &opts);
+            // validate the id before anything else
+            if !"C01 C02 C03 C04 C05 C08 C09 C10 C17 C18".split(' ').any(|x| x == id) {
+                eprintln!("unknown or unclaimed property {}", id);
+                std::process::exit(2);
+            }
+            let code = if std::env::var_os("MPDSIM_INNER").is_some() {
+                dispatch!(id, do_check, &opts)
+            } else {
+                framework::supervise(id, tier, &opts)
+            };
+            std::process::exit(code);
+        }
+        "locate" => {
+            // mpdsim locate <ID> <tier> <index> <case-file>
+            if args.len() < 5 {
+                usage();
+            }
+            let id = args[1].as_str();
+            let tier = if args[2] == "thorough" { Tier::Thorough } else { Tier::Quick };
+            let index: u64 = args[3].parse().unwrap_or(0);
+            let opts = Options::from_env(tier);
+            let path = std::path::PathBuf::from(&args[4]);
+            let code = dispatch!(id, do_locate, opts.seed, index, tier, &path);
+            std::process::exit(code);
+        }
+        "digests" => {
+            // mpdsim digests <ID> <n-indexes> [workers]
+            if args.len() < 3 {
+                usage();
+            }
+            let id = args[1].as_str();
+            let n: u64 = args[2].parse().unwrap_or(100);
+            let opts = Options::from_env(Tier::Quick);
+            let workers = args.get(3).and_then(|w| w.parse().ok()).unwrap_or(opts.workers);
+            let code = dispatch!(id, do_digests, opts.seed, n, workers);
             std::process::exit(code);
         }
         "replay" => {
@@ -105,7 +155,11 @@ fn main() {
                 }
             };
             let id = rf.property.clone();
-            let code = dispatch!(id.as_str(), do_replay, &rf, quiet, strict);
+            let code = if std::env::var_os("MPDSIM_INNER").is_some() {
+                dispatch!(id.as_str(), do_replay, &rf, quiet, strict)
+            } else {
+                framework::supervise_replay(&args[1], quiet, strict, &rf)
+            };
             std::process::exit(code);
         }
         "smoke" => {
